@@ -114,7 +114,8 @@ class Type:
         if self.is_builtin:
             ret = self._type.name.lower()
         else:
-            ret = self.user_type_name
+            # None for the type of an ill-typed expression
+            ret = self.user_type_name or 'unknown'
         if self.is_array:
             ret += '()'
         return ret
